@@ -201,7 +201,10 @@ Definition bin_exact (g : geom) (cs : list cluster) : matrix :=
 
 Definition ideal_add (g : geom) (s : state) (cs : list cluster) : state :=
   match st_frame s with
-  | [] => {| st_arr := zeros (g_rows g) (g_cols g); st_frame := renumber (centres g (st_arr s) ++ cs) |}
+  | [] => match centres g (st_arr s) ++ cs with
+          | [] => s                               (* nothing to convert, nothing to add *)
+          | l => {| st_arr := zeros (g_rows g) (g_cols g); st_frame := renumber l |}
+          end
   | f => {| st_arr := st_arr s; st_frame := renumber (fcl f ++ cs) |}
   end.
 
@@ -306,12 +309,16 @@ Definition obs_eqb (a b : obs) : bool :=
    isolated subprocess) whatever follows an out-of-bounds write of the model is undefined. *)
 Record ccase := { k_g : geom; k_ops : list op; k_checked : bool; k_obs : list (obs * frame_t) }.
 
+Definition has_corrupt (t : list (obs * frame_t)) : bool :=
+  existsb (fun p => match fst p with OCorrupt => true | _ => false end) t.
+
 Fixpoint trace_eqb (checked : bool) (model impl : list (obs * frame_t)) : bool :=
   match model, impl with
   | [], [] => true
   | (OCorrupt, _) :: _, (o, _) :: _ =>
       if checked then match o with OCorrupt => true | _ => false end else true
-  | (OCorrupt, _) :: _, [] => negb checked
+  | _ :: _, [] => negb checked && has_corrupt model   (* the isolated process died: only an out-of-bounds
+                                                         write of the model explains that *)
   | (a, f) :: m', (b, f') :: i' => obs_eqb a b && frame_eqb f f' && trace_eqb checked m' i'
   | _, _ => false
   end.
